@@ -503,10 +503,28 @@ def rule_optimiser(ctx, rule_id="C12.optimiser-table"):
               "operator): what is whitelisted is no longer what the filter evaluated on the stored objects would match", file=rel,
               line=(prelude[0].lineno if prelude else lp.lineno), function=fi.qualname,
               expected="the table reads <filter>.property / .op / .value as given", found=[short(s_, 90) for s_ in prelude])
-    other_skips = [t_ for t_ in skips if not (("%s.op == 'in'" % fv) in norm(t_) and ("isinstance(%s.value, str)" % fv) in norm(t_))]
-    run.check(not other_skips, R, key(rel, fi.qualname, "no-other-exemptions"),
-              "filters are exempted from the pruning table under a condition the model does not know", file=rel, line=lp.lineno,
-              function=fi.qualname, expected="only the string-valued `in` exemption", found=[short(t_) for t_ in other_skips])
+    # types and ids are STRINGS: a filter value of another kind (a number, a dictionary, a list with a number in it) equals no
+    # type / id -- the per-object evaluation answers accordingly ('=' nothing, '!=' everything, 'in' the string members) -- but
+    # as material for the white / black lists it raises (unhashable dictionary in set.add, get_type_from_id(5), 5 + '.json').
+    # Such a filter is exempt from the pruning: some `continue` stands under a test that is true when the value is no string.
+    # (decided by evaluating the exemption tests -- closed boolean expressions over the filter's three fields -- on sample
+    # filters: every non-string sample must reach a `continue`)
+    samples = [(p_, o_, v_) for p_ in ("type", "id") for o_, v_ in (("=", 5), ("=", {"a": 1}), ("!=", {"a": 1}), ("!=", 5),
+                                                                   ("in", ["malware", 5]), ("=", ("malware",)))]
+    nonstr = all(any(_eval_filter_test(t_, fv, smp) for t_ in skips) for smp in samples)
+    run.check(nonstr, R, key(rel, fi.qualname, "non-string-values-not-pruned"),
+              "a type / id filter whose value is not a string (or holds a non-string) is used to build the white / black lists: "
+              "Filter('id', '!=', {...}) raises TypeError (unhashable), Filter('id', '=', 5) AttributeError, Filter('type', 'in', "
+              "['malware', 5]) TypeError -- where the evaluation over the stored objects (and the memory source) answers",
+              file=rel, line=lp.lineno, function=fi.qualname,
+              expected="if <type / id filter> and not (isinstance(f.value, str) or <all members are str>): continue",
+              found=[short(t_) for t_ in skips])
+    # (any other exemption is sound by construction: an exempted filter prunes nothing and is still evaluated on every file read)
+    other_skips = [t_ for t_ in skips if not (("%s.op == 'in'" % fv) in norm(t_) and ("isinstance(%s.value, str)" % fv) in norm(t_))
+                   and ("isinstance(%s.value, str)" % fv) not in norm(t_)]
+    for t_ in other_skips:
+        run.info(R, key(rel, fi.qualname, "other-exemption"), "a filter is exempted from pruning under %s (sound: it is still evaluated "
+                 "on every file read)" % short(t_, 80))
     for k in sorted(set(table) | set(OPTIMISER)):
         got, want = table.get(k, set()), OPTIMISER.get(k, set())
         run.check(got == want, R, key(rel, fi.qualname, "%s %s" % k),
@@ -820,3 +838,49 @@ def rule_layout_classified_by_content(ctx, rule_id="C12.optimiser-table"):
               "filter", file=rel, line=sel[0].lineno, function=fi.qualname,
               expected="<flag> = _is_versioned_type_dir(type_path, type_dir) on every path", found=[short(e, 90) if isinstance(e, ast.AST) else str(e) for e in defs if not (
                   isinstance(e, ast.Call) and call_simple_name(e) == "_is_versioned_type_dir")])
+
+
+def _eval_filter_test(e, fv, smp, env=None):
+    """value of a closed expression over <fv>.property / .op / .value for the sample filter (property, op, value); a tiny
+    evaluator for the forms exemption tests are written in (and / or / not, comparisons, isinstance with builtin type names,
+    all / any over a generator on the value).  Anything else is an analysis error -- never a guess."""
+    env = env or {}
+    types = {"str": str, "int": int, "dict": dict, "list": list, "tuple": tuple, "set": set, "frozenset": frozenset, "bytes": bytes}
+    if isinstance(e, ast.BoolOp):
+        vals = (_eval_filter_test(v, fv, smp, env) for v in e.values)
+        return all(vals) if isinstance(e.op, ast.And) else any(vals)
+    if isinstance(e, ast.UnaryOp) and isinstance(e.op, ast.Not):
+        return not _eval_filter_test(e.operand, fv, smp, env)
+    if isinstance(e, ast.Constant):
+        return e.value
+    if isinstance(e, (ast.Tuple, ast.List)):
+        return tuple(_eval_filter_test(x, fv, smp, env) for x in e.elts)
+    if isinstance(e, ast.Attribute) and norm(e.value) == fv and e.attr in ("property", "op", "value"):
+        return smp[("property", "op", "value").index(e.attr)]
+    if isinstance(e, ast.Name) and e.id in env:
+        return env[e.id]
+    if isinstance(e, ast.Compare) and len(e.ops) == 1:
+        a, b = _eval_filter_test(e.left, fv, smp, env), _eval_filter_test(e.comparators[0], fv, smp, env)
+        o = e.ops[0]
+        if isinstance(o, ast.Eq):
+            return a == b
+        if isinstance(o, ast.NotEq):
+            return a != b
+        if isinstance(o, ast.In):
+            return a in b
+        if isinstance(o, ast.NotIn):
+            return a not in b
+    if isinstance(e, ast.Call) and call_simple_name(e) == "isinstance" and len(e.args) == 2:
+        tn = e.args[1]
+        names = [x.id for x in (tn.elts if isinstance(tn, ast.Tuple) else [tn]) if isinstance(x, ast.Name)]
+        if names and all(nm in types for nm in names):
+            return isinstance(_eval_filter_test(e.args[0], fv, smp, env), tuple(types[nm] for nm in names))
+    if isinstance(e, ast.Call) and call_simple_name(e) in ("all", "any") and len(e.args) == 1 and isinstance(e.args[0], ast.GeneratorExp) \
+            and len(e.args[0].generators) == 1 and not e.args[0].generators[0].ifs and isinstance(e.args[0].generators[0].target, ast.Name):
+        g_ = e.args[0].generators[0]
+        seq = _eval_filter_test(g_.iter, fv, smp, env)
+        if not isinstance(seq, (list, tuple, set, frozenset)):
+            raise TypeError("iteration over %r" % (seq,))
+        vals = [_eval_filter_test(e.args[0].elt, fv, smp, dict(env, **{g_.target.id: x})) for x in seq]
+        return all(vals) if call_simple_name(e) == "all" else any(vals)
+    raise AnalysisError("exemption test of the optimiser not understood: %s" % short(e, 80))
